@@ -1,6 +1,8 @@
 import PEval.Lemmas.ClearSwitch
 import PEval.Lemmas.ClearArith
 import PEval.Lemmas.ClearSum
+import PEval.Lemmas.ClearDT
+import PEval.Gen.ClearDT
 /-!
 # C05 — CLEAR tracking scores follow their definitions for every history
 
@@ -420,5 +422,210 @@ example : (∀ l ∈ labelsEx, UnitWeights l.hist) ∧ (∀ l ∈ labelsEx, l.g 
 example : Injective (swapId 1 2) ∧ swapId 1 2 1 = 2 := ⟨swapId_injective 1 2, by decide⟩
 
 end Examples
+
+/-! ## the CODE's decision tables (regenerated from the source on every run)
+
+`PEval/Gen/ClearDT.lean` holds, for each kernel of `clear.py`, the decision tree obtained by running the REAL function on
+stub objects over every assignment of its decision atoms (`harness/dt_clear.py`). Each `…_code_table_eq_model` below is the
+per-run obligation: the regenerated tree and the hand-written skeleton of the model agree on EVERY consistent valuation.
+It is discharged by kernel evaluation of the agreement check `tableOk` (sound by `table_eq_model`, complete for the finite
+space of valuations of the atoms the two trees ask; atoms of different pairs are treated as independent, which only
+enlarges the space), so a rewrite of the source that keeps the decisions leaves it provable with no edits, and a rewrite
+that changes a decision makes the build fail at that theorem. A table the translator could not express is `none`; the
+theorems then say nothing about it and the correspondence run alone ties model and code.
+The `…_input` corollaries compose this with the bridges `Model.f input = skeleton (valOf input)` (proved for all inputs
+in `PEval/Lemmas/ClearDT.lean`); the `table_…` theorems restate the property for what the code's table says. -/
+
+section DecisionTables
+open PEval.ClearDT
+
+/-- `CLEAR._is_id_switched`: table = skeleton -/
+theorem isIdSwitched_code_table_eq_model :
+    ∀ t, Gen.ClearDT.isIdSwitchedTree = some t → ∀ v : Val, v.consistent → t.eval v = .ok (isIdSwitchedAtoms 0 0 v) := by
+  intro t ht v hc
+  rw [table_eq_model (gen := Gen.ClearDT.isIdSwitchedTree) (sk := isIdSwitchedSkTree) (by decide +kernel) t ht v hc,
+    eval_isIdSwitchedSkTree]
+
+/-- `CLEAR._is_same_match`: table = skeleton -/
+theorem isSameMatch_code_table_eq_model :
+    ∀ t, Gen.ClearDT.isSameMatchTree = some t → ∀ v : Val, v.consistent → t.eval v = .ok (isSameMatchAtoms 0 0 v) := by
+  intro t ht v hc
+  rw [table_eq_model (gen := Gen.ClearDT.isSameMatchTree) (sk := isSameMatchSkTree) (by decide +kernel) t ht v hc,
+    eval_isSameMatchSkTree]
+
+/-- on every pair of results the code's table answers what the model answers, which is: the pairing changed
+(same estimated track XOR same ground-truth track, both with ground truth) resp. the pairing is the same -/
+theorem table_pair_predicates (cfg : Cfg) (c p : Res) :
+    (∀ t, Gen.ClearDT.isIdSwitchedTree = some t →
+      t.eval (valOf cfg [p] [c]) = .ok (isIdSwitched c p) ∧ t.eval (valOf cfg [p] [c]) = .ok (conflict c p)) ∧
+    (∀ t, Gen.ClearDT.isSameMatchTree = some t →
+      t.eval (valOf cfg [p] [c]) = .ok (isSameMatch c p) ∧ t.eval (valOf cfg [p] [c]) = .ok (samePair c p)) := by
+  constructor
+  · intro t ht
+    have h := isIdSwitched_code_table_eq_model t ht _ (valOf_consistent cfg [p] [c])
+    rw [← isIdSwitched_bridge] at h
+    exact ⟨h, by rw [h, isIdSwitched_eq_conflict]⟩
+  · intro t ht
+    have h := isSameMatch_code_table_eq_model t ht _ (valOf_consistent cfg [p] [c])
+    rw [← isSameMatch_bridge] at h
+    exact ⟨h, by rw [h, isSameMatch_eq_samePair]⟩
+
+/-- what the obligation on a step table says: the table (if the translator produced one) (i) equals the skeleton on every
+consistent valuation and (ii) on every input of that shape credits exactly the model's accumulators -/
+def StepTableSound (gen : Option (DTree (Except String SOut))) (nc np : Nat) : Prop :=
+  ∀ t, gen = some t →
+    (∀ v : Val, v.consistent → t.eval v = .ok (enc (stepAtoms nc np v))) ∧
+    (∀ (cfg : Cfg) (prev cur : List Res), cur.length = nc → prev.length = np →
+      ∃ m, t.eval (valOf cfg prev cur) = .ok (enc m) ∧ interp prev cur m = frameStep cfg prev cur)
+
+/-- `_calculate_tp_fp` on `nc` current and `np` previous results: a table that passes the check is sound -/
+theorem step_table_sound {gen : Option (DTree (Except String SOut))} {nc np : Nat}
+    (h : tableOk gen (stepSkTree nc np) = true) : StepTableSound gen nc np := by
+  intro t ht
+  have h1 : ∀ v : Val, v.consistent → t.eval v = .ok (enc (stepAtoms nc np v)) := by
+    intro v hc
+    rw [table_eq_model h t ht v hc, eval_stepSkTree]
+  refine ⟨h1, ?_⟩
+  intro cfg prev cur hcl hpl
+  refine ⟨stepAtoms nc np (valOf cfg prev cur), h1 _ (valOf_consistent cfg prev cur), ?_⟩
+  rw [frameStep_bridge, hcl, hpl]
+
+theorem step_0_1_code_table_eq_model : StepTableSound Gen.ClearDT.stepTree_0_1 0 1 :=
+  step_table_sound (by decide +kernel)
+theorem step_1_0_code_table_eq_model : StepTableSound Gen.ClearDT.stepTree_1_0 1 0 :=
+  step_table_sound (by decide +kernel)
+theorem step_1_1_code_table_eq_model : StepTableSound Gen.ClearDT.stepTree_1_1 1 1 :=
+  step_table_sound (by decide +kernel)
+theorem step_1_2_code_table_eq_model : StepTableSound Gen.ClearDT.stepTree_1_2 1 2 :=
+  step_table_sound (by decide +kernel)
+theorem step_2_0_code_table_eq_model : StepTableSound Gen.ClearDT.stepTree_2_0 2 0 :=
+  step_table_sound (by decide +kernel)
+theorem step_2_1_code_table_eq_model : StepTableSound Gen.ClearDT.stepTree_2_1 2 1 :=
+  step_table_sound (by decide +kernel)
+
+/-- what every step table that passes the check says, symbolically (no input needed): a current result whose key label has
+no threshold is ignored; otherwise exactly one of (one TP weight, one FP) is booked; a switch only together with a TP of
+the CURRENT result; the matching score booked is that of the result whose weight is booked (the previous one on a same match) -/
+theorem table_symbolic_accounting (v : Val) (j np : Nat) :
+    let m := resStepAtoms v j np
+    (v.b (.inTargets j (v.b (.hasGt (.cur j)))) = false → m = MOut.zero) ∧
+    (v.b (.inTargets j (v.b (.hasGt (.cur j)))) = true → m.tp.length + m.fp = 1) ∧
+    (m.sw = 1 → m.tp = [.cur j]) ∧ m.sw ≤ m.tp.length ∧ m.score = m.tp := by
+  intro m
+  show _ ∧ _ ∧ _ ∧ _ ∧ _
+  simp only [m, resStepAtoms]
+  cases h1 : v.b (.inTargets j (v.b (.hasGt (.cur j))))
+  · simp [MOut.zero]
+  · simp only [Bool.not_true, Bool.false_eq_true, if_false]
+    cases scanAtoms v j (v.b (.hasGt (.cur j))) 0 np <;>
+      cases v.b (.isTp (.cur j) j (v.b (.hasGt (.cur j)))) <;> simp [tailOut]
+
+/-- "every evaluated result is counted exactly once", for the code's table of one current result against any previous
+frame of the tabulated size (unit TP weights = `TPMetricsAp`) -/
+theorem table_each_result_once {gen : Option (DTree (Except String SOut))} {np : Nat}
+    (h : tableOk gen (stepSkTree 1 np) = true) (t : DTree (Except String SOut)) (ht : gen = some t)
+    (cfg : Cfg) (prev : List Res) (c : Res) (hl : prev.length = np) (hc : c.w = 1) (hp : ∀ p ∈ prev, p.w = 1) :
+    ∃ m, t.eval (valOf cfg prev [c]) = .ok (enc m) ∧
+      (evaluated cfg c = true →
+        ((interp prev [c] m).tp = 1 ∧ (interp prev [c] m).fp = 0) ∨ ((interp prev [c] m).tp = 0 ∧ (interp prev [c] m).fp = 1)) ∧
+      (evaluated cfg c = false → interp prev [c] m = Acc.zero) := by
+  obtain ⟨m, hm, hi⟩ := (step_table_sound h t ht).2 cfg prev [c] rfl hl
+  refine ⟨m, hm, ?_⟩
+  have hfs : frameStep cfg prev [c] = resStep cfg prev c := by
+    simp [frameStep, Acc.add, Acc.zero]
+  rw [hi, hfs]
+  exact each_result_once cfg prev c hc hp
+
+/-- `_calculate_score`: table = skeleton -/
+theorem score_code_table_eq_model :
+    ∀ t, Gen.ClearDT.scoreTree = some t → ∀ v : Val, v.consistent → t.eval v = .ok (scoreAtoms v) := by
+  intro t ht v hc
+  rw [table_eq_model (gen := Gen.ClearDT.scoreTree) (sk := scoreSkTree) (by decide +kernel) t ht v hc, eval_scoreSkTree]
+
+theorem scoreVal_consistent (g : Nat) (a : Acc) : (scoreVal g a).consistent := by
+  refine ⟨?_, ?_⟩
+  · intro r j s h
+    simp [scoreVal] at h
+  · have hg : ¬ ((g : Rat) < 0) := by
+      have : (0 : Rat) ≤ (g : Rat) := by exact_mod_cast Nat.zero_le g
+      exact not_lt.mpr this
+    simp only [scoreVal, if_true, cmpRat, hg, if_false]
+    split <;> simp
+
+/-- the formulas the code's score table selects, read on concrete totals, are the model's MOTA and MOTP — i.e.
+MOTA = inf without ground truth and max(0, (TP − FP − IDsw)/G) otherwise; MOTP = inf when TP = 0 and score/TP otherwise -/
+theorem table_score_def (g : Nat) (a : Acc) :
+    ∀ t, Gen.ClearDT.scoreTree = some t → ∃ s, t.eval (scoreVal g a) = .ok s ∧
+      scoreTerm g a s.1 = mota g a ∧ scoreTerm g a s.2 = motp a := by
+  intro t ht
+  refine ⟨_, score_code_table_eq_model t ht _ (scoreVal_consistent g a), ?_, ?_⟩
+  · unfold scoreAtoms mota
+    have hne1 : (Atom.ord motaRatio "0" = Atom.ord "num_gt" "0") = False := by simp [motaRatio]
+    have hne2 : (Atom.ord motaRatio "0" = Atom.ord "tp" "0") = False := by simp [motaRatio]
+    simp only [scoreVal, if_true, hne1, hne2, if_false]
+    by_cases hg : g = 0
+    · subst hg
+      simp [cmpRat, scoreTerm]
+    · have hgq : ¬ ((g : Rat) = 0) := by exact_mod_cast hg
+      have hgpos : ¬ ((g : Rat) < 0) := by
+        have : (0 : Rat) ≤ (g : Rat) := by exact_mod_cast Nat.zero_le g
+        exact not_lt.mpr this
+      simp only [cmpRat, hgq, hgpos, if_false, hg]
+      by_cases hr : ((a.tp - (a.fp : Rat) - (a.sw : Rat)) / (g : Rat)) < 0
+      · simp [hr, scoreTerm, max_eq_left (le_of_lt hr)]
+      · by_cases hr0 : ((a.tp - (a.fp : Rat) - (a.sw : Rat)) / (g : Rat)) = 0
+        · simp [hr0, scoreTerm]
+        · have : (0 : Rat) ≤ (a.tp - (a.fp : Rat) - (a.sw : Rat)) / (g : Rat) := not_lt.mp hr
+          simp [hr, hr0, scoreTerm, motaRatio, max_eq_right this]
+  · unfold scoreAtoms motp
+    have hne : (Atom.ord "tp" "0" = Atom.ord "num_gt" "0") = False := by simp
+    simp only [scoreVal, hne, if_false, if_true]
+    by_cases ht0 : a.tp = 0
+    · simp [cmpRat, ht0, scoreTerm]
+    · by_cases hlt : a.tp < 0 <;> simp [cmpRat, ht0, hlt, scoreTerm, motpRatio, motaRatio]
+
+/-- `CLEAR.__init__` on histories of n ≤ 3 frames: the frame pairs handed to `_calculate_tp_fp` with a non-empty current
+frame are exactly the consecutive ones (previous = the frame IMMEDIATELY before, empty or not) -/
+def InitTableSound (gen : Option (DTree (Except String (List (Option Nat × Option Nat) × Nat)))) (n : Nat) : Prop :=
+  ∀ t, gen = some t → ∀ v : Val, v.consistent → t.eval v = .ok (initAtoms v 1 (n - 1) [] 0)
+
+theorem init_table_sound {gen : Option (DTree (Except String (List (Option Nat × Option Nat) × Nat)))} {n : Nat}
+    (h : tableOk gen (initSkTree n) = true) : InitTableSound gen n := by
+  intro t ht v hc
+  rw [table_eq_model h t ht v hc, eval_initSkTree]
+
+/-- every pair the skeleton counts is a consecutive one -/
+theorem initAtoms_consecutive (v : Val) : ∀ (n i : Nat) (ps : List (Option Nat × Option Nat)) (c : Nat),
+    (∀ p ∈ ps, ∃ k, p = (some k, some (k + 1))) → 1 ≤ i →
+    ∀ p ∈ (initAtoms v i n ps c).1, ∃ k, p = (some k, some (k + 1)) := by
+  intro n
+  induction n with
+  | zero => intro i ps c h _; exact h
+  | succ n ih =>
+    intro i ps c h hi
+    simp only [initAtoms]
+    split
+    · exact ih (i + 1) ps c h (by omega)
+    · apply ih (i + 1) _ _ _ (by omega)
+      intro p hp
+      rcases List.mem_append.mp hp with hp | hp
+      · exact h p hp
+      · simp only [List.mem_singleton] at hp
+        exact ⟨i - 1, by rw [hp]; congr 2; omega⟩
+
+theorem init_0_code_table_eq_model : InitTableSound Gen.ClearDT.initTree_0 0 :=
+  init_table_sound (by decide +kernel)
+theorem init_1_code_table_eq_model : InitTableSound Gen.ClearDT.initTree_1 1 :=
+  init_table_sound (by decide +kernel)
+theorem init_2_code_table_eq_model : InitTableSound Gen.ClearDT.initTree_2 2 :=
+  init_table_sound (by decide +kernel)
+theorem init_3_code_table_eq_model : InitTableSound Gen.ClearDT.initTree_3 3 :=
+  init_table_sound (by decide +kernel)
+
+/-- the agreement check is not vacuous: the two pair predicates are told apart -/
+example : tableOk (some isIdSwitchedSkTree) isSameMatchSkTree = false := by decide +kernel
+example : tableOk (some (stepSkTree 1 1)) (stepSkTree 1 2) = false := by decide +kernel
+
+end DecisionTables
 
 end PEval.C05
